@@ -771,3 +771,5 @@ func eqVals(a, b *Val) string {
 	}
 	return "(and " + strings.Join(parts, " ") + ")"
 }
+
+func (e *Emit) keyKnown(key string) bool { _, ok := e.sorts[key]; return ok }
